@@ -24,7 +24,10 @@ RULE = ("one case = a seeded history of 3-9 connections between one client "
         "connections, abbreviated handshakes with a wrong client "
         "Finished (the session ID is invalidated), a passed-over ticket "
         "next to an external PSK, the session-ID ring filled past its "
-        "capacity before the age limit passes.   "
+        "capacity before the age limit passes, handshakes the client's "
+        "Checker refuses at the very end (the retry must be a full "
+        "handshake), resumption on server calls that do not request a "
+        "certificate (identity still carried).   "
         "compared. distinct_nontrivial = distinct (mechanism, version, "
         "invalidation reason, observed outcome) cells.")
 ASSUMPTIONS = [
